@@ -130,7 +130,8 @@ def _value_clone(x, _depth=0):
         keep = _constructor_attrs(cls)
         new = cls.__new__(cls)
         for k, v in x.__dict__.items():
-            if keep is None or k in keep:
+            # (the text an operation was read with is data, not a cache: see normal.state_norm)
+            if keep is None or k in keep or (k == "_string_code" and cls.__name__ == "SymmetryOperation"):
                 new.__dict__[k] = _value_clone(v, _depth + 1)
         return new
     if isinstance(x, list):
@@ -164,7 +165,8 @@ def rebuild_state(h, stats=None):
     sg = None
     try:
         cand = SpaceGroup(sg0.international_tables_number, choice=sg0.choice) if sg0.choice else SpaceGroup(sg0.international_tables_number)
-        same_ops = [int(s.integer_code) for s in cand.symmetry_operations] == [int(s.integer_code) for s in sg0.symmetry_operations]
+        same_ops = ([int(s.integer_code) for s in cand.symmetry_operations] == [int(s.integer_code) for s in sg0.symmetry_operations]
+                    and [str(s) for s in cand.symmetry_operations] == [str(s) for s in sg0.symmetry_operations])
         # the group IS its operation list; symbol, centering, point group ... are
         # data derived from it and come from the constructor, not from the handle
         if same_ops:
@@ -452,14 +454,29 @@ class Sim:
         # arguments. Keyword-argument queries only go to keyword crystals, and
         # those never get a default-argument query that builds the bond graph
         # (such a step - e.g. after the minimiser redirected it - is skipped).
-        if hi < len(self.kw) and (
-            (op in O.KW_QUERIES and not self.kw[hi])
-            or (self.kw[hi] and op not in O.KW_QUERIES and op not in O.KW_SAFE
-                and (op in O.ALL_QUERIES or op in O.RAISERS or op in O.MUTATORS or op in O.DERIVES))
-        ):
-            self.stats["skipped_not_applicable_to_handle"] += 1
-            self._log(i, hi, op, "skipped:n/a")
-            return fb
+        # Within one memo lifetime (between two state changes) a keyword
+        # crystal is asked either keyword queries or default-argument consumers
+        # of the bond graph, never both (the memo ignores arguments - that is
+        # what the proviso is about); a state change starts a new lifetime.
+        if hi < len(self.kw):
+            mode = self.kw[hi]  # False | "none" | "kw" | "default"
+            skip = False
+            if op in O.KW_QUERIES:
+                skip = not mode or mode == "default"
+                if not skip:
+                    self.kw[hi] = "kw"
+            elif mode and op not in O.KW_SAFE and (
+                    op in O.ALL_QUERIES or op in O.RAISERS or op in O.MUTATORS or op in O.DERIVES):
+                if op in O.KW_DEFAULT_CONSUMERS:
+                    skip = mode == "kw"
+                    if not skip:
+                        self.kw[hi] = "default"
+                elif op not in O.KW_MUTATORS:
+                    skip = True
+            if skip:
+                self.stats["skipped_not_applicable_to_handle"] += 1
+                self._log(i, hi, op, "skipped:n/a")
+                return fb
         if op == "cif_twin":
             self._cif_twin(i, hi)
             return fb
@@ -702,6 +719,8 @@ class Sim:
         if inject:
             self.stats["inject:" + ("fired" if fired else "not_reached")] += 1
         changed = state_digest(h) != S
+        if changed and self.kw[hi]:
+            self.kw[hi] = "none"  # a new memo lifetime
         # the twin of a CIF-born crystal (see _cif_twin) is taken through the
         # calls that changed the state; a single call that left the state as it
         # was (asking for the setting the crystal is in already) is not one
@@ -862,7 +881,7 @@ class Sim:
                 new = Crystal(uc, sg, au, titl=base.titl)
                 self.world.append(new)
                 self.titl0.append(new.titl)
-                self.kw.append(op == "stranger_kw")
+                self.kw.append("none" if op == "stranger_kw" else False)
                 self.held.append([])
                 self.box.append({})
                 self.cif_loaded.append("cif_data" in new.properties)
